@@ -24,6 +24,7 @@ CONSTANTS
   TaskOps,     \* op budget of a spawned task
   Horizon,     \* largest date
   NFlags, NLocks, NQueues, NChans,
+  CondSel,     \* name of the set of connective expressions the client may await (see CondTable)
   Menu         \* set of client operations enabled in this configuration
 
 Acts   == 1..MaxActs
@@ -149,7 +150,7 @@ IsTask(a) == a > NRoots
 ----------------------------------------------------------------------------
 \* Loop._run_events / _run_coroutine
 Deliver ==
-  /\ Idle /\ pending # <<>> /\ fault = ""
+  /\ Idle /\ pending # <<>> /\ fault = "" /\ Head(pending).tgt # 0
   /\ LET y == Head(pending) a == y.tgt IN
      /\ pending' = Tail(pending)
      /\ CASE act[a].life = "new" /\ y.sig = NoSig ->
@@ -863,6 +864,142 @@ StreamOp ==
   /\ UNCHANGED <<now, future, task, sc, flag, fault>>
 
 ----------------------------------------------------------------------------
+\* CONDITIONS AND TIME (usim/_primitives/condition.py, timing.py)
+\* Expressions:  <<"flag",f>> <<"nflag",f>> <<"done",k>> <<"ndone",k>>
+\*               <<"ge",t>> (time >= t)  <<"lt",t>> (time < t)  <<"eq",t>> (time == t)
+\*               <<"inst">> <<"etern">>   <<"all", <<c1,..>>>>  <<"any", <<c1,..>>>>
+\* named sets of connective expressions (TLC cfg files cannot express nested tuples)
+FL(f) == <<"flag", f>>
+NF(f) == <<"nflag", f>>
+CondTable == [
+  none   |-> {},
+  flat   |-> {<<"all", <<FL(1), FL(2)>>>>, <<"any", <<FL(1), FL(2)>>>>, <<"all", <<FL(1), NF(2)>>>>},
+  timed  |-> {<<"any", <<FL(1), <<"ge", 1>>>>>>, <<"all", <<FL(1), <<"eq", 1>>>>>>, <<"any", <<NF(1), <<"eq", 1>>>>>>,
+              <<"all", <<FL(1), <<"lt", 2>>>>>>},
+  nested |-> {<<"any", <<<<"all", <<FL(1), FL(2)>>>>, <<"ge", 2>>>>>>, <<"all", <<<<"any", <<FL(1), FL(2)>>>>, NF(1)>>>>},
+  past   |-> {<<"all", <<FL(1), <<"eq", 1>>>>>>, <<"any", <<FL(1), <<"eq", 0>>>>>>, <<"any", <<FL(1), <<"ge", 0>>>>>>}
+]
+Conds == CondTable[CondSel]
+
+RECURSIVE Eval(_)
+Eval(c) ==
+  CASE c[1] = "flag"  -> flag[c[2]]
+    [] c[1] = "nflag" -> ~flag[c[2]]
+    [] c[1] = "done"  -> task[c[2]].done
+    [] c[1] = "ndone" -> ~task[c[2]].done
+    [] c[1] = "ge"    -> now >= c[2]
+    [] c[1] = "lt"    -> now < c[2]
+    [] c[1] = "eq"    -> now = c[2]
+    [] c[1] = "inst"  -> TRUE
+    [] c[1] = "etern" -> FALSE
+    [] c[1] = "all"   -> \A i \in 1..Len(c[2]) : Eval(c[2][i])
+    [] c[1] = "any"   -> \E i \in 1..Len(c[2]) : Eval(c[2][i])
+    [] OTHER -> FALSE
+
+Trig(n) == <<"trig", n>>                 \* After._async_trigger of the After instance behind notification n
+Wk4(a, d, i) == <<"wk", a, d, i>>        \* wake-up of the i-th subscription of a connective awaited at depth d
+\* direct children of a connective, in order.  NAMED DEVIATION "nested_connective_parked": a child that is
+\* itself a connective is subscribed through Condition.__subscribe__, i.e. the waiter is parked in the
+\* child's own waiting list, which nothing ever triggers (known finding KF-C08-nested; see DESIGN.md)
+Leaves(c) == c[2]
+
+\* `await <time atom>` and `await eternity`
+\*   true now -> postpone;  will become true at date t -> wait for the After trigger;  else hibernate forever
+TimeWait(ac, c) ==
+  IF Eval(c) THEN DoPostpone(ac, pending) /\ UNCHANGED <<subs, future>>
+  ELSE IF c[1] \in {"ge", "eq"} /\ now < c[2]
+  THEN LET n == <<"aft", A, Len(ac[A].stack) + 1>> IN
+       /\ DoSubscribe(ac, subs, n)
+       /\ future' = [future EXCEPT ![c[2]] = Append(@, Actv(0, Trig(n)))]
+       /\ pending' = pending
+  ELSE /\ act' = Push(ac, A, [k |-> "hib"]) /\ Hibernate /\ UNCHANGED <<subs, future, pending>>
+
+\* the anonymous activity that triggers an After condition at its date
+DeliverTrigger ==
+  /\ Idle /\ pending # <<>> /\ fault = "" /\ Head(pending).tgt = 0
+  /\ LET aw == AwakeAll(subs, Tail(pending), Head(pending).sig[2]) IN
+     subs' = aw[1] /\ pending' = aw[2]
+  /\ ev' = <<>>
+  /\ UNCHANGED <<now, future, act, run, task, sc, flag, lock, obj, cnt, fault>>
+
+\* an exception reaches a bare hibernation (no wake-up of its own exists)
+HibExc ==
+  /\ Running /\ Mode = "exc" /\ Top(A).k = "hib"
+  /\ act' = Drop(act, A) /\ ev' = <<>>
+  /\ UNCHANGED <<now, pending, future, run, task, sc, subs, flag, lock, obj, cnt, fault>>
+
+\* Connective.__await_children__ :  frame conn(c, helpers)
+OwnConn(x) == x # NoSig /\ x[1] = "wk" /\ Len(x) = 4 /\ x[2] = A /\ x[3] = Depth(A)
+ConnSigs(sb) == SelectSeq(sb, LAMBDA y : ~(y.w = A /\ Len(y.sig) = 4 /\ y.sig[1] = "wk" /\ y.sig[3] = Depth(A)))
+ConnPurge(q) == SelectSeq(q, LAMBDA y : ~(y.tgt = A /\ Len(y.sig) = 4 /\ y.sig[1] = "wk" /\ y.sig[3] = Depth(A)))
+ConnStep ==
+  /\ Running /\ Top(A).k = "conn"
+  /\ LET fr == Top(A) c == fr.c d == Depth(A) lv == Leaves(c) IN
+     IF Mode = "exc"
+     THEN \* the ExitStack unsubscribes every child
+          /\ subs' = ConnSigs(subs)
+          /\ pending' = ConnPurge(pending)
+          /\ future' = [t \in Times |-> ConnPurge(future[t])]
+          /\ IF OwnConn(X) THEN SetRun("ret", NoSig) /\ act' = act
+             ELSE act' = Drop(act, A) /\ run' = run
+     ELSE IF Eval(c)
+     THEN /\ act' = Drop(act, A) /\ UNCHANGED <<run, subs, pending, future>>
+     ELSE \* subscribe to every leaf that is not true yet, then hibernate
+          LET idx == {i \in 1..Len(lv) : ~Eval(lv[i])}
+              Sub(i) == IF lv[i][1] \in {"flag", "nflag", "done", "ndone"} THEN <<[n |-> lv[i], w |-> A, sig |-> Wk4(A, d, i)]>>
+                        ELSE IF lv[i][1] \in {"ge", "eq"} /\ now < lv[i][2]
+                        THEN <<[n |-> <<"aftc", A, d, i>>, w |-> A, sig |-> Wk4(A, d, i)]>>
+                        ELSE <<>>
+              RECURSIVE allsubs(_)
+              allsubs(i) == IF i > Len(lv) THEN <<>> ELSE (IF i \in idx THEN Sub(i) ELSE <<>>) \o allsubs(i + 1)
+              newtrig == {i \in idx : lv[i][1] \in {"ge", "eq"} /\ now < lv[i][2] /\ i \notin fr.trig} IN
+          /\ subs' = subs \o allsubs(1)
+          /\ future' = [t \in Times |->
+                         future[t] \o [j \in 1..Cardinality({i \in newtrig : lv[i][2] = t}) |->
+                                        Actv(0, Trig(<<"aftc", A, d,
+                                             CHOOSE i \in newtrig : lv[i][2] = t /\ Cardinality({i2 \in newtrig : lv[i2][2] = t /\ i2 < i}) = j - 1>>))]]
+          /\ act' = SetTop(act, A, [fr EXCEPT !.trig = @ \cup newtrig])
+          /\ Hibernate /\ pending' = pending
+  /\ ev' = <<>>
+  /\ UNCHANGED <<now, task, sc, flag, lock, obj, cnt, fault>>
+
+CondOp ==
+  /\ Running /\ Mode = "ret" /\ User(A) /\ act[A].cur.op = "none" /\ act[A].ops > 0
+  /\ LET ac == Spend(act) IN
+     \/ /\ In("await_time")
+        /\ \E c \in {<<"ge", t>> : t \in 0..Horizon} \cup {<<"eq", t>> : t \in 0..Horizon}
+                    \cup {<<"lt", t>> : t \in 0..Horizon} \cup {<<"etern">>} :
+             /\ TimeWait([ac EXCEPT ![A].cur = [op |-> "await_c", c |-> c]], c)
+             /\ ev' = E(B([op |-> "await_c", c |-> c]))
+        /\ UNCHANGED <<sc, cnt>>
+     \/ /\ In("await_conn")
+        /\ \E c \in Conds :
+             /\ DoPostpone(Push([ac EXCEPT ![A].cur = [op |-> "await_c", c |-> c]], A,
+                                [k |-> "conn", c |-> c, trig |-> {}]), pending)
+             /\ ev' = E(B([op |-> "await_c", c |-> c]))
+        /\ UNCHANGED <<subs, future, sc, cnt>>
+     \/ /\ In("probe_c")
+        /\ \E c \in Conds :
+             \* bool(c) and bool(~c) right now (conditions containing `time == t` cannot be inverted)
+             /\ ev' = E([e |-> "p", a |-> A, t |-> now, op |-> "probe_c", c |-> c, v |-> Eval(c), nv |-> ~Eval(c)])
+             /\ act' = ac
+        /\ UNCHANGED <<pending, future, run, subs, sc, cnt>>
+     \/ /\ In("until_time") /\ cnt.sc < MaxScopes
+        /\ \E c \in {<<"ge", t>> : t \in 0..Horizon} \cup {<<"eq", t>> : t \in 0..Horizon} :
+             LET s == cnt.sc + 1  n == <<"afts", s>> IN
+             /\ OpenScope(ac, "until", c, TRUE)
+             /\ IF Eval(c) THEN pending' = Append(pending, Actv(A, Ci(s))) /\ UNCHANGED <<subs, future>>
+                ELSE IF now < c[2]
+                THEN /\ subs' = Append(subs, [n |-> n, w |-> A, sig |-> Ci(s)])
+                     /\ future' = [future EXCEPT ![c[2]] = Append(@, Actv(0, Trig(n)))]
+                     /\ pending' = pending
+                ELSE UNCHANGED <<subs, future, pending>>        \* a passed moment never fires
+             /\ ev' = <<B([op |-> "open", kind |-> "until_c", c |-> c, s |-> s, catch |-> TRUE]),
+                        [e |-> "r", a |-> A, op |-> "open", t |-> now]>>
+        /\ run' = run
+  /\ UNCHANGED <<now, task, flag, lock, obj, fault>>
+
+----------------------------------------------------------------------------
 Keep(Act) == Act /\ UNCHANGED obj        \* the steps above do not touch stream state
 Next ==
   \/ Keep(Deliver) \/ Keep(Advance)
@@ -873,6 +1010,7 @@ Next ==
   \/ Keep(Graceful) \/ Keep(Abort) \/ Keep(CloseNext) \/ Keep(Propagate)
   \/ Keep(UserOp)
   \/ StreamOp \/ QGetStep \/ ChanStep
+  \/ CondOp \/ ConnStep \/ DeliverTrigger \/ HibExc
 
 Spec == Init /\ [][Next]_vars
 =============================================================================
